@@ -85,7 +85,7 @@ class AppRun:
                         net.nattempt = 0
                     mark = len(self.trace)
                     try:
-                        r = app.run_forever(**spec.get("run_kwargs", {}))
+                        r = app.run_forever(**(spec["first_run_kwargs"] if (i == 0 and runs == 2 and spec.get("first_run_kwargs") is not None) else spec.get("run_kwargs", {})))
                         if spec.get("after_run"):
                             spec["after_run"](app)  # external dispatcher: the event loop runs after run_forever has registered everything
                         out.append(("ret", r))
